@@ -5,7 +5,7 @@
    itself, conditional on two hypotheses that the harness monitors on the real code in every run:
    H_lex_split (the tokens of P++D are the tokens of P followed by the shifted tokens of D) and
    H_rules_local (every enabled struct rule is paragraph-local).  Hence `_partial`. *)
-Require Import Base Overlap Tables_lexer Lexer Condense ParaSplit ParaSplitProofs LexSplitProofs.
+Require Import Base Overlap Tables_lexer Lexer Condense ParaSplit ParaSplitProofs LexSplitProofs LongSentencesSeam.
 From Coq Require Import Sorting.Permutation.
 
 (* the index arithmetic of iter_chunks / iter_sentences / iter_paragraphs never slices out of range and
@@ -218,6 +218,23 @@ Check C12_main_lexer_partial : forall u,
 Print Assumptions C12_main_lexer_partial.
 
 (* ---------- non-vacuity ---------- *)
+
+(* ---------- one rule body: LongSentences as repaired by 1bab09f (finding FC12a) ---------- *)
+(* the rule never panics (slice, span().unwrap(), Span::new are checked operations of the model) *)
+Theorem C12_long_sentences_total : forall ts, exists l, long_sentences ts = Ok l.
+Proof. exact long_sentences_total. Qed.
+Check C12_long_sentences_total : forall ts, exists l, long_sentences ts = Ok l.
+Print Assumptions C12_long_sentences_total.
+
+(* its lints do not depend on a whitespace token in front of the token list — the leading Newline token that
+   Document(D) has and Document(P++D) lacks when D starts with a newline (there it belongs to P's break) *)
+Theorem C12_long_sentences_leading_ws : forall w B,
+  is_ws_kind (tkind w) = true -> long_sentences (w :: B) = long_sentences B.
+Proof. exact long_sentences_leading_ws. Qed.
+Check C12_long_sentences_leading_ws : forall w B,
+  is_ws_kind (tkind w) = true -> long_sentences (w :: B) = long_sentences B.
+Print Assumptions C12_long_sentences_leading_ws.
+
 (* "Hi, yo. <break> So? No" : kinds W , S W . B W ? S W with spans tiling 0..17 *)
 Definition ex_A : list tok :=
   [mktok (mkspan 0 2) KWord; mktok (mkspan 2 3) KComma; mktok (mkspan 3 4) KSpace; mktok (mkspan 4 6) KWord;
@@ -313,3 +330,13 @@ Example C12_quote_premise_needed :
 Proof.
   cbv zeta. split; [intros H; inversion H; discriminate|]. repeat split; vm_compute; reflexivity.
 Qed.
+
+(* HISTORY (FC12a, repaired by 1bab09f): the old LongSentences reported the hull of the whole sentence, so a
+   leading Newline token moved the start of the lint (41 one-character words behind a newline token); the
+   repaired rule answers 1..42 with and without it — also the non-vacuity example of the two theorems above *)
+Example C12_long_sentences_old_refuted :
+  long_sentence_old (nl_tok :: words41 1) = Ok [mkspan 0 42] /\
+  long_sentence_old (words41 1) = Ok [mkspan 1 42] /\
+  long_sentence (nl_tok :: words41 1) = Ok [mkspan 1 42] /\
+  long_sentence (words41 1) = Ok [mkspan 1 42].
+Proof. exact long_sentence_old_depends_on_leading_ws. Qed.
